@@ -301,6 +301,31 @@ theorem pushElems_perm (op : Op) (k : Key) (vs : List Elem) (st : List (Key × E
 theorem Acc_setBlocked {s : State} {c : Conn} {b} (h : Acc s) : Acc (setBlocked s c b) :=
   Acc_congr (by simp) (by simp) (by simp) (by simp) h
 
+theorem Acc_wakeOne (q : Quirks) (s : State) (h : Acc s) : Acc (wakeOne q s) := by
+  unfold wakeOne
+  split
+  · exact h
+  · next w rest hw =>
+    simp only []
+    split
+    · exact Acc_congr (s := s) rfl rfl rfl rfl h
+    · next e st' hp =>
+      have hperm : s.store.Perm (e :: st') := popElem_perm hp
+      split
+      · have h1 : Acc (setBlocked (emit { s with wakeQ := rest, store := st' } w.conn (.pair e.1 e.2)) w.conn none) := by
+          apply Acc_setBlocked
+          exact Acc_pop_emit (s := { s with wakeQ := rest }) rfl hperm (Acc_congr (s := s) rfl rfl rfl rfl h)
+        split
+        · exact Acc_congr (by simp) (by simp) (by simp) (by simp) h1
+        · exact h1
+      · exact Acc_pop_lost (s := { s with wakeQ := rest }) hperm (Acc_congr (s := s) rfl rfl rfl rfl h)
+
+theorem Acc_iter {f : State → State} (hf : ∀ s, Acc s → Acc (f s)) : ∀ n s, Acc s → Acc (iter f n s) := by
+  intro n
+  induction n with
+  | zero => intro s h; exact h
+  | succ n ih => intro s h; exact ih _ (hf s h)
+
 theorem Acc_dataCmd (q : Quirks) (now : Nat) (c cid : Conn) (s : State) (cmd : Cmd) (h : Acc s) :
     Acc (dataCmd q now c cid s cmd) := by
   cases cmd with
@@ -308,14 +333,20 @@ theorem Acc_dataCmd (q : Quirks) (now : Nat) (c cid : Conn) (s : State) (cmd : C
     simp only [dataCmd]
     split
     · exact Acc_emit_none rfl h
-    · refine Acc_congr (notifyN_pushed _ _ _) (notifyN_out _ _ _) (notifyN_lost _ _ _) (notifyN_store _ _ _) ?_
-      apply Acc_emit_none rfl
-      unfold Acc
-      show (s.pushed ++ vs.map fun v => (k, v)).Perm (delivered s ++ s.lost ++ pushElems op k vs s.store)
-      refine (List.Perm.append_right _ h).trans ?_
-      show (delivered s ++ s.lost ++ s.store ++ vs.map fun v => (k, v)).Perm _
-      rw [List.append_assoc (delivered s ++ s.lost)]
-      exact List.Perm.append_left _ (pushElems_perm op k vs s.store).symm
+    · have hN : Acc (notifyN (if q.notifyPerElement then vs.length else 1) k
+          (emit { s with store := pushElems op k vs s.store, pushed := (s.pushed ++ vs.map fun v => (k, v)) } c
+            (.int (listOf (pushElems op k vs s.store) k).length))) := by
+        refine Acc_congr (notifyN_pushed _ _ _) (notifyN_out _ _ _) (notifyN_lost _ _ _) (notifyN_store _ _ _) ?_
+        apply Acc_emit_none rfl
+        unfold Acc
+        show (s.pushed ++ vs.map fun v => (k, v)).Perm (delivered s ++ s.lost ++ pushElems op k vs s.store)
+        refine (List.Perm.append_right _ h).trans ?_
+        show (delivered s ++ s.lost ++ s.store ++ vs.map fun v => (k, v)).Perm _
+        rw [List.append_assoc (delivered s ++ s.lost)]
+        exact List.Perm.append_left _ (pushElems_perm op k vs s.store).symm
+      split
+      · exact Acc_iter (Acc_wakeOne q) _ _ hN
+      · exact hN
   | pop op k =>
     simp only [dataCmd]
     split
@@ -373,35 +404,6 @@ theorem Acc_foldl_topCmd (q : Quirks) (now : Nat) (c : Conn) (cmds : List Cmd) :
   induction cmds with
   | nil => intro s h; exact h
   | cons cmd r ih => intro s h; exact ih _ (Acc_topCmd q now c s cmd h)
-
-theorem Acc_wakeOne (q : Quirks) (s : State) (h : Acc s) : Acc (wakeOne q s) := by
-  unfold wakeOne
-  split
-  · exact h
-  · next w rest hw =>
-    simp only []
-    split
-    · split
-      · split
-        · exact Acc_congr (s := s) rfl rfl rfl rfl h
-        · exact Acc_congr (s := s) rfl rfl rfl rfl h
-      · exact Acc_congr (s := s) rfl rfl rfl rfl h
-    · next e st' hp =>
-      have hperm : s.store.Perm (e :: st') := popElem_perm hp
-      split
-      · have h1 : Acc (setBlocked (emit { s with wakeQ := rest, store := st' } w.conn (.pair e.1 e.2)) w.conn none) := by
-          apply Acc_setBlocked
-          exact Acc_pop_emit (s := { s with wakeQ := rest }) rfl hperm (Acc_congr (s := s) rfl rfl rfl rfl h)
-        split
-        · exact Acc_congr (by simp) (by simp) (by simp) (by simp) h1
-        · exact h1
-      · exact Acc_pop_lost (s := { s with wakeQ := rest }) hperm (Acc_congr (s := s) rfl rfl rfl rfl h)
-
-theorem Acc_iter {f : State → State} (hf : ∀ s, Acc s → Acc (f s)) : ∀ n s, Acc s → Acc (iter f n s) := by
-  intro n
-  induction n with
-  | zero => intro s h; exact h
-  | succ n ih => intro s h; exact ih _ (hf s h)
 
 theorem Acc_timeoutConn (s : State) (c : Conn) (h : Acc s) : Acc (timeoutConn s c) := by
   unfold timeoutConn
